@@ -78,6 +78,22 @@ def _sets(rnd, tier):
 				if x + sh <= tb and rnd.random() < .5:
 					b.add(x + sh)
 		yield [v for v in a if v <= ta], sorted(v for v in b if v <= tb)
+	# size skew: one long array (hundreds to thousands of elements) against a very short one holding values that alias
+	# members of the long one modulo 2^15 / 2^16 / 2^31 / 2^32 (and genuine common members)
+	for _ in range(60 if tier == 'quick' else 1500):
+		bitsl = rnd.choice([15, 16, 31, 32])
+		size = rnd.choice([70, 300, 600, 1100, 4100])
+		lo = rnd.choice([0, 2 ** bitsl - size - 5]) if 2 ** bitsl > size + 10 else 0
+		long_ = sorted(rnd.sample(range(lo, min(2 ** bitsl, lo + size * 3)), size))
+		short = set()
+		for x in rnd.sample(long_, rnd.randrange(1, 4)):
+			short.add(x + 2 ** (16 if bitsl <= 16 else 32) * rnd.choice([1, 2]))      # aliases x in the narrower width
+		if rnd.random() < .5:
+			short.add(rnd.choice(long_))                                                # a genuine common member
+		if rnd.random() < .3:
+			short.add(2 ** 64 - 1)
+		pair = (long_, sorted(short))
+		yield pair if rnd.random() < .5 else pair[::-1]
 	for _ in range(n):
 		top = rnd.choice([2 ** 15 - 1, 2 ** 16 - 1, 2 ** 31 - 1, 2 ** 32 - 1, 2 ** 63 - 1, 2 ** 64 - 1, 50, 1000])
 		na, nb = rnd.randrange(0, 40), rnd.randrange(0, 40)
@@ -118,5 +134,5 @@ def bounded(tier, seed):
 					if len(failures) >= 5:
 						return {'cases': n, 'failures': failures, 'samples': sample}
 	return {'tool': 'exhaustive subsets of a 6-element universe x 6x6 dtypes + random large-valued sets, against Python sets + exact rational rounded once to binary32',
-	        'bound': 'universe of 6 elements exhaustively; random sets of < 40 elements with values up to the dtype maxima',
+	        'bound': 'universe of 6 elements exhaustively; random sets of < 40 elements with values up to the dtype maxima; size-skewed pairs (70..4100 elements against 1..5) whose short side aliases the long side modulo 2^16 / 2^32',
 	        'cases': n, 'failures': failures, 'samples': sample}
